@@ -789,7 +789,7 @@ def run(c):
     c.prove()
     rng = c.rng
     run_batch(c, [dict(x) for x in CORPUS], rng)
-    n_main = c.n(70, 500)
+    n_main = c.n(60, 500)
     n_own = c.n(16, 100)
     n_solve = c.n(10, 60)
     insts = [S.gen_instance(rng, big=c.big and rng.random() < 0.3) for _ in range(n_main)]
@@ -820,7 +820,7 @@ def run(c):
     for k in range(0, len(allinst), 40):
         run_batch(c, allinst[k:k + 40], rng)
     run_batch(c, sol, rng, solve=True)
-    stream_effpar(c, rng, c.n(30, 300))
+    stream_effpar(c, rng, c.n(24, 300))
     c.exhaustive = False
     c.notes.append("affine instances: complete comparison of (A, b, lbg, ubg); nonlinear ones at N+5 probes; "
                    "the unbounded claim is carried by the theorems")
